@@ -160,8 +160,59 @@ fn scenario(name: &str, n: usize) -> Vec<u8> {
     o
 }
 
+/// A battery of sequential geo algorithms on one caller's input (used by `two_callers`).
+fn battery(k: usize, n: usize) -> Vec<u8> {
+    use geo::algorithm::{ConcaveHull, InteriorPoint, KNearestConcaveHull, Relate, Simplify};
+    let mut o = Vec::new();
+    // same sizes and the same bounding box for every caller, different coordinates inside
+    let f = |i: usize| ((i * (7 + 2 * k) + 3 * k) % 11) as f64 * 0.5;
+    let mut ring: Vec<Coord<f64>> = vec![Coord { x: 0.0, y: 0.0 }, Coord { x: 10.0, y: 0.0 }];
+    ring.extend((0..n).map(|i| Coord { x: 10.0 - i as f64 * (10.0 / n as f64), y: 5.0 + f(i) }));
+    ring.push(Coord { x: 0.0, y: 10.5 });
+    ring.push(Coord { x: 0.0, y: 0.0 });
+    let poly = Polygon::new(LineString::new(ring.clone()), vec![]);
+    let other = sq(2.0 + k as f64 * 0.25, 1.0, 4.0);
+    let pts = MultiPoint::new(ring.iter().map(|c| Point(*c)).collect());
+    wpoly(&mut o, &poly.convex_hull());
+    wpoly(&mut o, &pts.convex_hull());
+    wpoly(&mut o, &poly.simplify(0.75));
+    wpoly(&mut o, &pts.concave_hull(2.0));
+    wpoly(&mut o, &pts.k_nearest_concave_hull(3));
+    if let Some(p) = poly.interior_point() {
+        w(&mut o, p.x());
+        w(&mut o, p.y());
+    }
+    if let Some(c) = poly.centroid() {
+        w(&mut o, c.x());
+        w(&mut o, c.y());
+    }
+    w(&mut o, poly.unsigned_area());
+    o.extend_from_slice(format!("{:?}", poly.relate(&other)).as_bytes());
+    wmp(&mut o, &poly.intersection(&other));
+    wmp(&mut o, &geo::algorithm::bool_ops::unary_union([&poly, &other]));
+    o
+}
+
 fn main() {
     let av: Vec<String> = std::env::args().collect();
+    if av.get(1).map(|s| s.as_str()) == Some("two_callers") {
+        // several USER threads call the library at the same time on different inputs of equal
+        // size and extent; every result must equal the one computed alone, before.
+        let callers: usize = av.get(2).and_then(|s| s.parse().ok()).unwrap_or(2);
+        let n: usize = av.get(3).and_then(|s| s.parse().ok()).unwrap_or(6);
+        let alone: Vec<Vec<u8>> = (0..callers).map(|k| battery(k, n)).collect();
+        let together: Vec<Vec<u8>> = std::thread::scope(|s| {
+            let hs: Vec<_> = (0..callers).map(|k| s.spawn(move || battery(k, n))).collect();
+            hs.into_iter().map(|h| h.join().unwrap()).collect()
+        });
+        if together != alone {
+            let k = (0..callers).find(|&k| together[k] != alone[k]).unwrap();
+            println!("DIFFERS scenario=two_callers threads={callers} caller={k} len={}/{}", together[k].len(), alone[k].len());
+            std::process::exit(1);
+        }
+        println!("EQUAL scenario=two_callers threads={callers} len={}", alone[0].len());
+        return;
+    }
     let name = av.get(1).map(|s| s.as_str()).unwrap_or("par_iter_multipolygon");
     let threads: usize = av.get(2).and_then(|s| s.parse().ok()).unwrap_or(3);
     let n: usize = av.get(3).and_then(|s| s.parse().ok()).unwrap_or(12);
